@@ -160,7 +160,16 @@ def _run_case(spec):
         except Exception as ex:
             res['construct_error'] = '%s: %s' % (type(ex).__name__, str(ex)[:160])
             return res
-        res['mode_after_import'] = {'wrapper': pit.training, 'seed': pit.seed.training, 'expected': train_mode}
+        res['mode_after_import'] = {'wrapper': pit.training, 'seed': pit.seed.training, 'expected': train_mode,
+                                    'modules_off': [n for n, m in pit.named_modules() if m.training != train_mode][:5]}
+        if not train_mode:
+            # the model was handed over in eval mode and the wrapper reports eval mode: it must compute the
+            # model's function as it stands, without another .eval()
+            try:
+                with torch.no_grad():
+                    res['import_diff_as_returned'] = _allclose(y0, pit(*xs))
+            except Exception:
+                pass
         changed = [k for k, v in net.state_dict().items() if k in state0 and not torch.equal(v, state0[k])]
         res['user_params_changed'] = changed
         pit.eval()
